@@ -158,6 +158,12 @@ pub fn run_case(idents: &[Ident], idx: u64, rng: &mut Rng, _thorough: bool, hist
     let rt = runtime();
     rt.block_on(async {
         intern_begin();
+        // the choices added later draw from a stream of their own (the older choices of a case stay what they were)
+        let mut rng2 = Rng::new(rng.0 ^ 0x0c14_a44f_6d69_7865);
+        // "every table content ... every requester address": in a third of the cases the node listens on both
+        // address families and its table holds a mix of IPv4-only, IPv6-only and dual records; requests arrive from
+        // IPv4 and IPv6 source addresses alike (which records are served does not depend on the requester's address)
+        let family_mix = rng2.chance(1, 3);
         let mut recs = Recs::new(idents);
         let p = rng.below(idents.len() as u64) as usize;
         let max_nodes = *rng.pick(&[0usize, 1, 3, 16, 16, 16, 16, 20, 40, 200]);
@@ -177,10 +183,13 @@ pub fn run_case(idents: &[Ident], idx: u64, rng: &mut Rng, _thorough: bool, hist
         };
         let li = recs.get(&local_spec);
         let local_enr = recs.list[li].enr.clone();
-        let mut cb = base_config(0);
+        let mut cb = base_config(if family_mix { 2 } else { 0 });
         cb.max_nodes_response(max_nodes);
         let mut b = Svc::new(local_enr.clone(), idents[p].key(), cb.build()).await;
         let local_id = idents[p].id;
+        if family_mix {
+            hist.add("c14:dual_stack_table_of_mixed_address_families");
+        }
 
         // ---- table content
         let n_entries = if long_answers { 140 } else { *rng.pick(&[0u64, 3, 10, 30, 60, 100, 140]) };
@@ -209,13 +218,27 @@ pub fn run_case(idents: &[Ident], idx: u64, rng: &mut Rng, _thorough: bool, hist
             order.swap(i, j);
         }
         for i in order {
-            let spec = RecSpec {
+            let mut spec = RecSpec {
                 ident: i,
                 seq: rng.range(1, 50),
                 udp4: Some(([10, (i / 250) as u8, (i % 7) as u8, (i % 250) as u8 + 1], 30303)),
                 udp6: if rng.chance(1, 4) { Some(([0x20, 1, 0xd, 0xb8, 0, 0, 0, 0, 0, 0, 0, 0, 0, 0, (i >> 8) as u8, i as u8], 9001)) } else { None },
                 size: uniform.unwrap_or(*rng.pick(&[0usize, 0, 300, 300, 220, 150])),
             };
+            if family_mix {
+                match rng2.below(3) {
+                    0 => {
+                        // an IPv6-only record
+                        spec.udp4 = None;
+                        spec.udp6 = Some(([0x20, 1, 0xd, 0xb8, 0, 0, 0, 0, 0, 0, 0, 0, 0, 1, (i >> 8) as u8, i as u8], 9001));
+                    }
+                    1 => {
+                        // an IPv4-only record
+                        spec.udp6 = None;
+                    }
+                    _ => {}
+                }
+            }
             let ri = recs.get(&spec);
             let (conn, inc) = (rng.chance(2, 3), rng.chance(1, 3));
             let key = discv5::Key::from(idents[i].node_id());
@@ -294,7 +317,17 @@ pub fn run_case(idents: &[Ident], idx: u64, rng: &mut Rng, _thorough: bool, hist
                 if rq == p {
                     continue;
                 }
-                let addr = NodeAddress { socket_addr: sock4([192, 168, rng.below(256) as u8, 7], rng.range(1, 65535) as u16), node_id: idents[rq].node_id() };
+                let mut addr = NodeAddress { socket_addr: sock4([192, 168, rng.below(256) as u8, 7], rng.range(1, 65535) as u16), node_id: idents[rq].node_id() };
+                if rng2.chance(1, if family_mix { 2 } else { 4 }) {
+                    // the request is observed from an IPv6 source address
+                    let mut ip = [0x20u8, 1, 0xd, 0xb8, 0, 0, 0, 0, 0, 0, 0, 0, 0, 2, 0, 0];
+                    ip[14] = rng2.below(256) as u8;
+                    ip[15] = rng2.below(256) as u8;
+                    addr.socket_addr = sock6(ip, addr.socket_addr.port());
+                    hist.add("c14:findnode_from_an_ipv6_source");
+                } else if family_mix {
+                    hist.add("c14:findnode_from_an_ipv4_source_table_with_ipv6_only_records");
+                }
                 let before = table_content(&b.s.kbuckets.read());
                 // the application asks its own node the same question at the same moment (same table,
                 // same cap; like the answer, the call puts the due pending nodes of the buckets it
@@ -382,7 +415,7 @@ pub fn run_case(idents: &[Ident], idx: u64, rng: &mut Rng, _thorough: bool, hist
                 }
                 e.n(after_hash);
                 fnv(&mut h, &format!("f{}:{}:{}", served.packets.len(), total_recs, ds.len().min(9)));
-                descr.push(J::s(format!("FINDNODE id={} distances={:?} from ident {}", hex::encode(&id), &ds[..ds.len().min(12)], rq)));
+                descr.push(J::s(format!("FINDNODE id={} distances={:?} from ident {} at {}", hex::encode(&id), &ds[..ds.len().min(12)], rq, addr.socket_addr)));
                 steps.push(format!(
                     "(SFind {} {} {}, {})",
                     coq_hex(&idents[rq].id),
@@ -495,6 +528,7 @@ pub fn run_case(idents: &[Ident], idx: u64, rng: &mut Rng, _thorough: bool, hist
             ("local_ident", J::I(p as i64)),
             ("max_nodes_response", J::I(max_nodes as i64)),
             ("table_entries", J::I(content.len() as i64)),
+            ("dual_stack_node_with_ipv4_only_ipv6_only_and_dual_records_in_its_table", J::B(family_mix)),
             ("populated_distances", J::A(populated.iter().map(|d| J::I(*d as i64)).collect())),
             ("steps", J::A(descr)),
         ]);
